@@ -46,3 +46,13 @@ func init() {
 		Stages: []Stage{{Name: "match", Pkg: "./mon/c05", Procs: 1, Batches: [2]int{8, 16}, TimeoutS: [2]int{300, 1500}}},
 	}
 }
+
+func init() {
+	properties["C01"] = Property{
+		Level: "exploration",
+		Rule:  "one case = (history prefix, event, state kind[, parent]) dispatched through FindRules.Do and compared with the model; histories of 8-30 AddRule/replace/RemRule/AddFact-on-rule-id/RemFact/EnableRule/Clear steps over 4 ids (+2 in a parent); events derived from current and former `when` patterns; non-trivial = the model expects >=1 rule dispatched or the event matches a former pattern; distinct by canonical JSON of (state, history prefix, event)",
+		Floor: [2]int{500, 5000},
+		Assumptions: []string{"lib/ref.Match + lib/ref.Loc are the specification; rules use the documented {\"when\":{\"pattern\":P}} form; an operation that returns an error leaves its id 'unknown' until rewritten"},
+		Stages: []Stage{{Name: "dispatch", Pkg: "./mon/c01", Procs: 1, Batches: [2]int{8, 16}, TimeoutS: [2]int{600, 3000}}},
+	}
+}
